@@ -163,3 +163,51 @@ Proof.
   split; [reflexivity|]. split; [reflexivity|]. split; [reflexivity|].
   eexists. split; vm_compute; reflexivity.
 Qed.
+
+(* ---- the Ed25519 limb code itself. Generated/ScalarLimbs.v is REGENERATED from
+   /repo/group/edwards25519/scalar.go by the translator (/verif/translator,
+   bin/gen-limbs) on every run; the theorems below are about that generated
+   code: no int64 operation can wrap for any byte inputs, the limbs of the
+   result are congruent to a*b+c modulo L, lie in [0,L), and each limb is in
+   range. (The byte unpacking/packing identities that would turn this into a
+   statement about the 32 output bytes are not proved: they are covered by the
+   translation validation and the limb correspondence of every run.) *)
+From Coq Require Import String.
+From Kyber Require Import Generated.ScalarLimbs Limb.LimbSem Limb.LimbBounds Limb.LimbPoly Limb.LimbGen Limb.LimbValue Limb.LimbGenValue.
+
+Theorem C02_scMulAdd_no_overflow : forall a b c,
+  bytes a -> bytes b -> bytes c -> scMulAdd a b c = scMulAdd_nowrap a b c.
+Proof. exact scMulAdd_no_overflow. Qed.
+Print Assumptions C02_scMulAdd_no_overflow.
+
+Theorem C02_scReduce_no_overflow : forall s, bytes s -> scReduce s = scReduce_nowrap s.
+Proof. exact scReduce_no_overflow. Qed.
+Print Assumptions C02_scReduce_no_overflow.
+
+Theorem C02_scMulAdd_limbs : forall a b c, bytes a -> bytes b -> bytes c ->
+  (Lq | wval 1 (final prog_scMulAdd [a; b; c]) (vars names_scMulAdd S12)
+        - (wval 1 (final prog_scMulAdd [a; b; c]) (vars names_scMulAdd A12)
+           * wval 1 (final prog_scMulAdd [a; b; c]) (vars names_scMulAdd B12)
+           + wval 1 (final prog_scMulAdd [a; b; c]) (vars names_scMulAdd C12)))
+  /\ 0 <= wval 1 (final prog_scMulAdd [a; b; c]) (vars names_scMulAdd S12) < Lq.
+Proof. exact scMulAdd_limbs. Qed.
+Print Assumptions C02_scMulAdd_limbs.
+
+Theorem C02_scReduce_limbs : forall s, bytes s ->
+  (Lq | wval 1 (final prog_scReduce [s]) (vars names_scReduce S12)
+        - wval 1 (exec noi [s] (firstn (load_len (p_code prog_scReduce)) (p_code prog_scReduce))
+                       (init prog_scReduce)) (vars names_scReduce S24))
+  /\ 0 <= wval 1 (final prog_scReduce [s]) (vars names_scReduce S12) < Lq.
+Proof. exact scReduce_limbs. Qed.
+Print Assumptions C02_scReduce_limbs.
+
+(* ---- the group orders are prime (Pocklington certificates checked by vm_compute,
+   Algebra/Primes*.v), so the field laws hold for the real scalar fields with no premise *)
+From Kyber Require Import Algebra.Primes Algebra.PrimesUse.
+Theorem C02_group_orders_prime :
+  prime ed_L /\ prime p256_n /\ prime bn256_n /\ prime bn254_r /\ prime bls12381_r /\ prime q61.
+Proof.
+  split; [exact prime_ed_L|]. split; [exact prime_p256_n|]. split; [exact prime_bn256_n|].
+  split; [exact prime_bn254_r|]. split; [exact prime_bls12381_r|exact prime_q61].
+Qed.
+Print Assumptions C02_group_orders_prime.
